@@ -53,6 +53,65 @@ type xPlanted struct {
 	ExtA     [][]int64   `json:"extA,omitempty"`
 	TolExt   int64       `json:"tolExt,omitempty"`
 	Mats     [][][]int64 `json:"mats,omitempty"`
+	Probe    []poolProbe `json:"probe,omitempty"`
+}
+
+// poolProbe is one operation of Extract!HogProbe: an unrelated operation on integer matrices that borrows a
+// workspace from the pools shared by all of mat; Want is its exact result.
+type poolProbe struct {
+	Op   string    `json:"op"`
+	A    [][]int64 `json:"a"`
+	X    [][]int64 `json:"x"`
+	E    int       `json:"e"`
+	Want [][]int64 `json:"want"`
+}
+
+// runPoolProbe executes the specification's probe operations and compares bit for bit (theorem ProbeExact:
+// integer results, every intermediate exact in float64).
+func (k *checker) runPoolProbe(pfx string, probe []poolProbe) {
+	for _, o := range probe {
+		sig := fmt.Sprintf("%safter-factorize:%s(%dx%d)", pfx, o.Op, len(o.Want), len(o.Want[0]))
+		var got *mat.Dense
+		var err error
+		switch o.Op {
+		case "pow":
+			got = new(mat.Dense)
+			if !k.call(sig, func() { got.Pow(denseOf(o.A), o.E) }) {
+				continue
+			}
+		case "mulself":
+			got = denseOf(o.X)
+			if !k.call(sig, func() { got.Mul(got, denseOf(o.A)) }) {
+				continue
+			}
+		case "solveself":
+			got = denseOf(o.X)
+			if !k.call(sig, func() { err = got.Solve(denseOf(o.A), got) }) {
+				continue
+			}
+		default:
+			k.failf(sig+":harness", "unknown probe operation")
+			continue
+		}
+		if err != nil {
+			k.failf(sig+":error", "%v", err)
+			continue
+		}
+		r, c := got.Dims()
+		if r != len(o.Want) || c != len(o.Want[0]) {
+			k.failf(sig+":dims", "result is %dx%d", r, c)
+			continue
+		}
+	cmp:
+		for i := 0; i < r; i++ {
+			for j := 0; j < c; j++ {
+				if got.At(i, j) != float64(o.Want[i][j]) {
+					k.failf(sig+":value", "element (%d,%d) = %v, specification says %d", i, j, got.At(i, j), o.Want[i][j])
+					break cmp
+				}
+			}
+		}
+	}
 }
 
 type xLine struct {
@@ -1209,6 +1268,8 @@ func (x *xrun) runHOGSVD() (undecided bool) {
 	if !k.call(x.sig("Factorize"), func() { ok = h.Factorize(matRepOf(reps[0], p.Mats[0], 1), matRepOf(reps[1], p.Mats[1], 1)) }) {
 		return false
 	}
+	// whatever the factorization answered, the pools it borrowed from must still serve unrelated operations
+	k.runPoolProbe("matfactor:xto:HOGSVD:", p.Probe)
 	if !ok {
 		return true // the documentation does not say when the factorization exists: not judged
 	}
